@@ -1,10 +1,13 @@
 """C17 — text and header input is parsed faithfully or rejected, never mis-handled.
 Lean: StirVerif/C17 (model of the KeyParser text core + theorems).
 Tie: hand-written model + correspondence (harness/c17_keyparser.cxx vs lean/Driver/C17.lean, line by line).
-Oracle part 1 (harness/c17_keyparser.cxx): registry round trip / keyword matching / aliases / vectorised keys on the implementation.
+Oracle part 1 (harness/c17_keyparser.cxx): registry round trip (classes that need external data get small files written by the
+harness) / keyword matching / aliases in arbitrary spellings of alias AND target, incl. the aliases the library registers itself /
+vectorised keys of every type / per-segment lists of projection-data headers, on the implementation.
 Oracle part 2 (harness/c17_fuzz.cxx): KeyParser::parse, read_interfile_image, read_interfile_PDFS, MultipleDataSetHeader on
-grammar-aware mutations of library-written headers under AddressSanitizer + UBSan, with the anchored STIR sources compiled
-*instrumented* into the harness.  Part 2 is runtime evidence, not a theorem."""
+grammar-aware mutations of library-written headers and on the structured "exactly one size-bearing field inconsistent" family,
+under AddressSanitizer + UBSan, with the anchored STIR sources compiled *instrumented* into the harness.
+Part 2 is runtime evidence, not a theorem."""
 import concurrent.futures, hashlib, os, re, subprocess
 import vlib
 
@@ -182,7 +185,7 @@ def run_fuzz(chk, tier):
         chk.violation("fuzz-harness-abort", "C17 fuzz harness itself aborted (exit %d)" % r.returncode, r.stdout[-4000:], found_input=False)
         return {}
     verdicts, per_target, killed_by_key, inconsistent_by_key, done = {}, {}, {}, {}, None
-    overflow_reports = 0
+    overflow_reports, structured = 0, 0
     for l in open(resfile, errors="replace"):
         t = l.split()
         if not t:
@@ -209,6 +212,8 @@ def run_fuzz(chk, tier):
             killed_by_key.setdefault(classify(err, how, target, text), []).append((target, inputfile, err))
         elif t[0] == "DONE":
             done = l.strip()
+            m = re.search(r"structured=(\d+)", l)
+            structured = int(m.group(1)) if m else 0
     if done is None:
         chk.violation("fuzz-incomplete", "C17 fuzz harness did not finish", r.stdout[-2000:], found_input=False)
     for key, cases in sorted(killed_by_key.items()):
@@ -222,29 +227,34 @@ def run_fuzz(chk, tier):
     for key, cases in sorted(inconsistent_by_key.items()):
         target, msg, inp = cases[0]
         text = open(inp, "rb").read() if inp and os.path.exists(inp) else b""
-        chk.violation(key, "%s: reader accepted %d generated inputs in an inconsistent state (target %s): %s" % (key, len(cases), target, msg),
-                      "# seed=%d tier=%s\nfuzz-target %s\nfuzz-input-hex %s\n# %s\n" % (vlib.seed(), tier, target, text.hex(), msg))
+        expect = open(inp + ".expect").read().strip() if inp and os.path.exists(inp + ".expect") else ""
+        chk.violation(key, "%s: reader handled %d generated inputs inconsistently (target %s): %s" % (key, len(cases), target, msg),
+                      "# seed=%d tier=%s\nfuzz-target %s\nfuzz-input-hex %s\n%s# %s\n" % (
+                          vlib.seed(), tier, target, text.hex(), ("fuzz-expect %s\n" % expect) if expect else "", msg))
     return dict(fuzz_inputs=sum(per_target.values()), fuzz_inputs_per_target=per_target, fuzz_verdicts=verdicts,
                 fuzz_killed_classes={k: len(v) for k, v in killed_by_key.items()},
                 fuzz_inconsistent_classes={k: len(v) for k, v in inconsistent_by_key.items()},
                 fuzz_signed_overflow_reports=overflow_reports,
+                fuzz_structured_one_field_inconsistent_inputs=structured,
                 fuzz_instrumented_sources=INSTRUMENTED)
 
 
 def replay_fuzz(chk, replay):
-    target, data = None, None
+    target, data, expect = None, None, None
     for l in open(replay):
         if l.startswith("fuzz-target"):
             target = l.split()[1]
         elif l.startswith("fuzz-input-hex"):
             t = l.split()
             data = bytes.fromhex(t[1]) if len(t) > 1 else b""
+        elif l.startswith("fuzz-expect "):
+            expect = l[len("fuzz-expect "):].strip()
     exe = build_fuzz_harness()
     work = os.path.join(vlib.OUT, "c17", "replay")
     os.makedirs(work, exist_ok=True)
     inp = os.path.join(work, "input.txt")
     open(inp, "wb").write(data)
-    rr = subprocess.run([exe, "one", target, work, inp], env=fuzz_env(), timeout=300, stdout=subprocess.PIPE, stderr=subprocess.STDOUT)
+    rr = subprocess.run([exe, "one", target, work, inp] + ([expect] if expect else []), env=fuzz_env(), timeout=300, stdout=subprocess.PIPE, stderr=subprocess.STDOUT)
 
     class R:
         returncode = rr.returncode
@@ -260,6 +270,16 @@ def replay_fuzz(chk, replay):
         key = classify(r.stdout, "exit%d" % r.returncode, target, data)
         chk.violation(key, "replay: %s: %s" % (key, " ".join(report_tail(r.stdout).split())[:260]), open(replay).read())
     chk.coverage.update(dict(evaluations=1, distinct_nontrivial=1, rule="replay of one fuzz input", samples=[target]))
+
+
+def compare(op, impl, model):
+    """exact, except for `pdfsseg` (per-segment lists of a projection-data header): the model transcribes the length checks of
+    InterfilePDFSHeader::post_processing and the segment numbering of find_segment_sequence only; the ProjDataInfo constructor
+    that runs afterwards may still refuse the geometry with error().  So: model rej/err => same answer from the code; code
+    accepts => model accepts with the same segment range; code `err` where the model accepts is allowed."""
+    if impl == model:
+        return True
+    return op.startswith("pdfsseg ") and impl == "err" and model.startswith("ok ")
 
 
 def main(tier, replay):
@@ -278,11 +298,12 @@ def main(tier, replay):
         if audit:
             vlib.proof_coverage(chk, audit, "cd lean && lake build StirVerif stirdriver && lake env lean ../build/out/Audit_C17.lean")
         return chk.finish()
-    stats = vlib.run_differential(chk, PROP, "c17_keyparser", tier, max_report=8)
-    classes = []
+    stats = vlib.run_differential(chk, PROP, "c17_keyparser", tier, max_report=8, compare=compare)
+    classes, alias_sites = [], []
     cf = os.path.join(vlib.OUT, "c17_%s.impl.classes" % tier)
     if os.path.exists(cf):
-        classes = [l.rstrip("\n") for l in open(cf)]
+        for l in open(cf, errors="replace"):
+            (alias_sites if l.startswith("alias-site ") else classes).append(l.rstrip("\n"))
     if os.environ.get("C17_SKIP_FUZZ") == "1":     # development only: part 1 alone (recorded in the evidence)
         fuzz = dict(fuzz_skipped=True)
         chk.assumptions.append("DEVELOPMENT RUN: the sanitizer part (part 2) was skipped (C17_SKIP_FUZZ=1)")
@@ -293,16 +314,33 @@ def main(tier, replay):
         "one line per operation: keywords/lines of Interfile headers written by the library and of parameter_info() of every constructible "
         "registered class, seeded grammar-aware mutations (value/index replacement, line deletion/duplication/swap, truncation at line and byte, "
         "CR/LF, continuation, ':=' damage, equivalent and damaged keywords) on a fixed probe table, tables derived from library-written headers and random tables; "
+        "keys are registered in non-standard spellings (capitals, '_', '!', repeated/leading/trailing blanks), aliases are registered with arbitrary spellings "
+        "of alias AND target (also alias of alias / of a missing key; the library's own TOF aliases on the tables derived from its headers) and the texts spell "
+        "keys through any spelling of their aliases; every modelled vectorised key type (int, string, list of ints) x index 0 / negative / 1..size / size+1 / beyond / "
+        "wrapping atoi values / decorated; `pdfsseg`: real InterfilePDFSHeader::parse on the library's projection-data header with 'matrix size [4]', the axial-positions "
+        "list and the two ring-difference lists replaced (consistent, exactly one list shorter/longer, a list absent, no segment 0) against the model of the "
+        "per-segment checks (exact, except that the code may still error() in the ProjDataInfo constructor where the model accepts); "
         "distinct = distinct operation lines. Oracle on the implementation: parameter_info->parse->parameter_info for every class of 19 registry roots "
-        "(enumerated at run time, each in a child process; also after accepted numeric value replacements), case/white-space-insensitive keyword matching, "
-        "alias resolution, vectorised keys at the index given, KeyParser round trip on random printable values. "
+        "(enumerated at run time, each in a child process; classes that need external data are constructed from small projection-data / image / frame-definition / "
+        "plasma files written by the harness; also after accepted numeric value replacements), case/white-space-insensitive keyword matching, "
+        "alias resolution for random spellings of registered key, named target, alias and line, the aliases registered in the library sources "
+        "(add_alias_key calls with literal arguments, scanned at run time: an InterfilePDFSHeader header using any spelling of the alias parses to the same object "
+        "as the one using the target keyword, and the value is used; other call sites are listed in coverage.alias_sites), vectorised keys of all eight types "
+        "(int, unsigned, unsigned long, float, double, string, list of ints, list of doubles) at index 0 / negative / in range / size+1 / beyond: stored at the index "
+        "given and nothing else changed, or error; accepted projection-data header => number of segments = declared count = length of every list given; "
+        "KeyParser round trip on random printable values. "
         "Part 2 (fuzz_* keys): KeyParser::parse, read_interfile_image, read_interfile_PDFS (PET, SPECT, Siemens), MultipleDataSetHeader with the anchored sources "
         "compiled with -fsanitize=address,undefined: every seed header truncated at every line (with/without newline), every single line deleted, truncation at sampled bytes, "
-        "and seeded mutations (hostile values incl. huge/negative sizes, index changes, insertion of known keys, duplication, swap, keyword damage, over-long values); "
-        "verdict per input: rejected / accepted and consistent with header and data-file size / inconsistent / killed (sanitizer report, crash, allocation > 256 MB, time-out).",
-        extra=dict(registered_classes=classes,
+        "seeded mutations (hostile values incl. huge/negative sizes, index changes, insertion of known keys, duplication, swap, keyword damage, over-long values), and the "
+        "structured family 'exactly one size-bearing field inconsistent' (each per-segment list / 'matrix size [4]' / TOF bin count, order list and mashing factor / "
+        "number of dimensions / image matrix sizes (list, empty, missing, larger than the data file) / image scaling factors / per-frame and per-energy-window keys beyond "
+        "the declared count / SPECT radii vs number of projections: must be rejected; consistent variants and the library's own headers: must be accepted); "
+        "verdict per input: rejected / accepted and consistent with the data-file size and (for PET projection data and images, when an independent strict scan of the "
+        "header text is unambiguous) with every size and list the header gives / inconsistent / killed (sanitizer report, crash, allocation > 256 MB, time-out).",
+        extra=dict(registered_classes=classes, alias_sites=alias_sites,
                    classes_round_trip_same=len([c for c in classes if "| same |" in c]),
-                   classes_not_constructible=len([c for c in classes if "not-constructible" in c]), **fuzz))
+                   classes_not_constructible=len([c for c in classes if "not-constructible" in c]),
+                   classes_registered_as_None=len([c for c in classes if c.split(" | ")[0].endswith("/None")]), **fuzz))
     chk.coverage["evaluations"] = chk.coverage.get("evaluations", 0) + fuzz.get("fuzz_inputs", 0)
     chk.assumptions += [
         "characters are bytes in the \"C\" locale; NUL bytes and ${ENV} substitution are not modelled (generators avoid them)",
@@ -312,7 +350,13 @@ def main(tier, replay):
         "(coverage.fuzz_signed_overflow_reports): such an input is judged by its outcome; all other sanitizer reports are fatal",
         "memory safety, allocation size and termination under malformed input are RUNTIME EVIDENCE from the sanitizer run on the generated inputs (mutation loop, not coverage-guided), not theorems; "
         "only the sources in coverage.fuzz_instrumented_sources (and inlined headers) are instrumented, the rest of STIR is linked from the plain build",
-        "classes that cannot be constructed without external data are listed in coverage.registered_classes, not failed"]
+        "classes that cannot be constructed even with the harness's synthetic files (list-mode / gated / dynamic data, ECAT8, GE HDF5, matrix-from-file, parametric "
+        "reconstructions) and the registered name 'None' (a null object) are listed in coverage.registered_classes, not failed",
+        "aliases: add_alias_key call sites with non-literal arguments or in classes that are not compiled / have no driver (CListModeDataROOT: HAVE_CERN_ROOT off) are "
+        "listed in coverage.alias_sites, not driven",
+        "per-segment model: sums of ring differences are small (no int overflow, exact as float); the geometry checks of the ProjDataInfo constructors are not modelled",
+        "the header-facts oracle of part 2 applies only where an independent strict scan of the text is unambiguous (no continuation/CR, each size-bearing key once, "
+        "plain integer / {list} values); other accepted inputs are judged by data-file size and sanitizers only"]
     if audit:
         vlib.proof_coverage(chk, audit, "cd lean && lake build StirVerif stirdriver && lake env lean ../build/out/Audit_C17.lean")
     return chk.finish()
